@@ -99,6 +99,18 @@ Theorem C18_evaluable_example :
 Proof. exact evaluable_example. Qed.
 Print Assumptions C18_evaluable_example.
 
+(* Formula variables: [vars nd] is the node of every <pVariable> whatever accessor its name carries
+   (X, X.Value, X.Min, X.Max, X.Inc, X.Enum.E — the code asks `variable.value()` only).  A swiss knife
+   or converter is reported readable, and a converter writable, only if each of these nodes is. *)
+Theorem C18_variable_sources : forall s rank F st n nd m, Acyclic s rank -> (forall x, rank x < F) ->
+  nth_error s n = Some nd -> In m (vars nd) ->
+  (nkind nd = KSwissKnife \/ nkind nd = KIntSwissKnife \/ nkind nd = KConverter \/ nkind nd = KIntConverter ->
+   is_readable fixed_cfg s F st n = Ok true -> is_readable fixed_cfg s F st m = Ok true) /\
+  (nkind nd = KConverter \/ nkind nd = KIntConverter ->
+   is_writable fixed_cfg s F st n = Ok true -> is_readable fixed_cfg s F st m = Ok true).
+Proof. exact variable_sources. Qed.
+Print Assumptions C18_variable_sources.
+
 (* the corollaries hold for the pinned code as well (any configuration c) *)
 Theorem C18_locked_not_writable : forall c s rank F st n nd l, Acyclic s rank -> (forall m, rank m < F) ->
   nth_error s n = Some nd -> p_lock nd = Some l -> bool_from_id s F st l = Ok true ->
